@@ -221,7 +221,7 @@ def run(ctx):
     kinds = _tolerance_kinds(ctx, mdl)
     for cname, keyparams in (('QuadraticBezier', ()), ('CubicBezier', ('error', 'min_depth'))):
         fi = mdl.func('path.%s.length' % cname)
-        _check_length_info_cache(ctx, fi, keyparams, kinds)
+        _check_length_info_cache(ctx, fi, keyparams, kinds, cname)
     _check_arc_cache(ctx, mdl.func('path.Arc.length'))
     _check_path_cache(ctx, mdl.func('path.Path._calc_lengths'), kinds)
 
@@ -423,12 +423,11 @@ def _conj_guards(stmt, func):
     return out
 
 
-def _check_length_info_cache(ctx, fi, keyparams, kinds):
+def _check_length_info_cache(ctx, fi, keyparams, kinds, cname):
     """semantic: run length() on a segment whose cache holds a STALE entry (value LC measured for control points K with tolerances
     EC/MC) and look at every label path: LC may be returned only where the path knows K == current control points and that the
     cached tolerances are at least as strict as the requested ones; a cache that was written must describe the current state"""
     mdl = ctx.model
-    cname = fi.cls.name
     n = {'QuadraticBezier': 3, 'CubicBezier': 4}[cname]
     P, K = cpoints(n, 'P'), cpoints(n, 'K')
     LC, EC, MC, E, M = [Rat.sym(x) for x in ('LCACHED', 'ECACHED', 'MCACHED', 'EREQ', 'MREQ')]
